@@ -397,6 +397,19 @@ def extract_trace(trace_file, tid):
     return res
 
 
+def run_until_violation(prop, thunks):
+    """Run the suites of a check in order; once one of them has found a violation charged to
+    this property (or a crash), the remaining ones are not run: the verdict is known."""
+    out = []
+    for t in thunks:
+        r = t()
+        rs = r if isinstance(r, list) else [r]
+        out.extend(rs)
+        if any(v.get("p") in (prop, "*") for x in rs for v in x.get("viol", [])):
+            break
+    return out
+
+
 # ----------------------------------------------------------------- cache
 def cache_get(key):
     p = os.path.join(OUT, "cache", key + ".json")
